@@ -368,10 +368,22 @@ func runC13(c C13Case, cs *kit.CaseStats) (err error) {
 	if missing {
 		cs.Class("input-does-not-exist-on-target-chain")
 		if uerr == nil {
-			// proofs of nonexistent elements cannot be right; check below would
-			// need an expectation, so only classify
+			// proofs of nonexistent elements cannot be right and are not
+			// examined; but whatever is returned without an error must still be
+			// the input minus the members confirmed on the path, in order - a
+			// member that cannot be carried over is an error, never a silent drop
+			if len(out) != len(wantIdx) {
+				return fmt.Errorf("%s: returned %d transactions without an error, expected the %d that are not confirmed on the path (a member whose input does not exist on the target chain was dropped silently)", where, len(out), len(wantIdx))
+			}
+			for k, i := range wantIdx {
+				if out[k].ID() != set[i].ID() {
+					return fmt.Errorf("%s: result[%d] is %v, expected input[%d] = %v", where, k, out[k].ID(), i, set[i].ID())
+				}
+			}
+			cs.Class("input-does-not-exist-on-target-chain:accepted")
 			return nil
 		}
+		cs.Class("input-does-not-exist-on-target-chain:refused")
 		return nil
 	}
 	if uerr != nil {
